@@ -239,7 +239,8 @@ Definition created_ok (db : list item) (st : state) (tr : list event) (k p sid a
 Definition pc_ok (st : state) : Prop :=
   match st_reader st with
   | RChunk rq _ ss => sess_get (r_peer rq, r_sid rq) (st_sessions st) = Some ss
-  | RSend rq _ ss r => sess_get (r_peer rq, r_sid rq) (st_sessions st) = Some ss /\ rs_inc r = s_inc ss
+  | RSend rq _ ss r | REnq rq _ ss r =>
+      sess_get (r_peer rq, r_sid rq) (st_sessions st) = Some ss /\ rs_inc r = s_inc ss
   | _ => True
   end.
 
@@ -363,7 +364,7 @@ Proof.
     + simpl. intros key ss Hg. eapply get_del_all_some. exact Hg.
     + unfold produced. simpl. rewrite Epc, enqs_app. simpl. rewrite app_nil_r. reflexivity.
   - (* reader continues *)
-    destruct (st_reader st) as [|rq|rq i ss|rq i ss r0] eqn:Epc; try discriminate.
+    destruct (st_reader st) as [|rq|rq i ss|rq i ss r0|rq i ss r0] eqn:Epc; try discriminate.
     + (* at the top: session lookup / creation *)
       destruct (st_pending st <? c_limit cfg); [|discriminate].
       unfold reader_top in H. simpl in H.
@@ -500,10 +501,16 @@ Proof.
       * apply (sinv_frame db st tr);
           [exact HI|same_table|reflexivity| |auto|auto|exact I].
         unfold produced. simpl. rewrite Epc. reflexivity.
-    + (* at the second wait / Enqueue *)
+    + (* at the second wait: the addition to the pending size *)
+      unfold reader_add in H. destruct (st_pending st <? c_limit cfg); [|discriminate].
+      inversion H; subst st' evs. clear H. rewrite app_nil_r.
+      pose proof (si_pc _ _ _ HI) as Hpc. unfold pc_ok in Hpc. rewrite Epc in Hpc.
+      apply (sinv_frame db st tr);
+        [exact HI|same_table|reflexivity| |auto|auto|unfold pc_ok; simpl; exact Hpc].
+      unfold produced. simpl. rewrite Epc. reflexivity.
+    + (* at Enqueue *)
       unfold reader_send in H.
-      destruct ((st_pending st <? c_limit cfg) &&
-                (N.of_nat (length (nth (s_sender ss) (st_senders st) [])) <=? c_maxtasks cfg) &&
+      destruct ((N.of_nat (length (nth (s_sender ss) (st_senders st) [])) <=? c_maxtasks cfg) &&
                 (Nat.ltb (s_sender ss) (length (st_senders st)))); [|discriminate].
       inversion H; subst st' evs. clear H.
       pose proof (si_pc _ _ _ HI) as Hpc. unfold pc_ok in Hpc. rewrite Epc in Hpc. destruct Hpc as [Hpc1 Hpc2].
